@@ -56,7 +56,8 @@ DEPENDS = {
     'C07': ['C08'],
     'C02': ['C04', 'C05', 'C06'],
     'C03': ['C04', 'C05', 'C06'],
-    'C04': ['C06'],
+    # an SDO write to a PDO parameter object that is answered with the wrong verdict is a wrong SDO answer
+    'C04': ['C06', 'C14'],
     'C10': ['C08'],
     'C11': ['C08'],
     # PDO behaviour rests on the timer manager, on the dictionary, on accepted reconfigurations being carried out
@@ -67,13 +68,13 @@ DEPENDS = {
     'C16': ['C08'],
     'C19': ['C08'],
     # "every service returns to the behaviour of a fresh node": the per-service reset / initialisation clauses
-    'C20': ['C05', 'C12', 'C13', 'C15'],
+    'C20': ['C05', 'C12', 'C13', 'C15', 'C08'],
 }
 
 
 PROPERTIES = {
     'C01': {
-        'rules': ['RF6', 'RF5', 'SDO', 'TMR', 'CSDO', 'SDO2', 'RF7', 'PDOCFG', 'EMCY'],
+        'rules': ['RF6', 'RF5', 'SDO', 'TMR', 'CSDO', 'SDO2', 'RF7', 'PDOCFG', 'EMCY', 'RF17'],
         'technique': 'interval abstract interpretation (widening/narrowing, guard refinement, parameter and field '
                      'invariants) for every constant-extent subscript; non-null dataflow with bounded disjunction for every '
                      'dereference of a nullable location; guard-before-use for SDO continuation handlers',
